@@ -15,6 +15,11 @@ def check(tier, seed):
     msg = b'rng protocol'
     fails = ['errbefore', '-', 'errafter:' + 'aa', 'errafter:' + 'bb' * 16, 'errafter:' + 'cc' * 31, 'errafter:' + 'dd' * 32,
              'errbefore+ok:' + draw.hex(), 'errafter:' + draw.hex() + '+ok:' + draw.hex()]
+    # generator errors carrying every kind of code (OS-like: EINTR 4, EAGAIN 11, EIO 5, 1, the largest OS code; internal; custom), once and
+    # repeatedly: the library must report the first failure, whatever the code says, and must not ask again
+    for code in (4, 11, 5, 1, 2147483647, 2147483649, 3221225472):
+        fails += [f'errbefore@{code}', '+'.join([f'errbefore@{code}'] * 3), '+'.join([f'errbefore@{code}'] * 6), f'errafter@{code}:' + 'ab' * 32,
+                  f'errbefore@{code}+ok:' + draw.hex(), '+'.join([f'errafter@{code}:' + draw.hex()] * 4)]
     oks = ['ok:' + draw.hex(), 'ok:' + draw.hex() + '+errbefore', 'ok:' + draw.hex() + '+ok:' + 'ff' * 32]
     want_fail = lambda o: None if o == 'err:rng calls=tryfill32' else 'a failing generator must yield Err after exactly one fallible 32-byte request (no panic, no key/signature)'
     want_ok = lambda o: None if o.startswith('ok ') and o.endswith('calls=tryfill32') else 'success must use exactly one try_fill_bytes(32) request'
